@@ -309,10 +309,9 @@ func (p *c15) Run(rec *core.Recorder, seed uint64, idx int, tier string) {
 				rec.Count("autoreload-removed-checks", 1)
 			case cur.mtime > ent.mtime:
 				// must see a current loader version, never the stale cached one
+				// ... and the reload consults the loaders in registration order: the first that has the name wins, even when
+				// the cached copy came from a later loader
 				addLoader(fw)
-				if fw != ent.loader {
-					allowed = append(allowed, outcome{cur.src, ent.loader})
-				}
 				newerCheck = true
 			case cur.src == ent.version:
 				allowed = append(allowed, outcome{ent.version, ent.loader})
